@@ -81,3 +81,28 @@ Definition box_eqb (a b : XQ * XQ * XQ * XQ) : bool :=
   eqb (fst (fst (fst a))) (fst (fst (fst b))) && eqb (snd (fst (fst a))) (snd (fst (fst b))) && eqb (snd (fst a)) (snd (fst b))
   && eqb (snd a) (snd b).
 Definition box (x y w h : Z) : XQ * XQ * XQ * XQ := (qz x, qz y, qz w, qz h).
+
+(* a second run that exercises determine_content_based_container_width: the container B as a root under max-content
+   available space (no known width: one measuring query per in-flow child without a definite width) *)
+Definition ex_subtree : sk (BNode XQ) := sk_map ex_node ex_B.
+Definition ex_subtree_scaled (k : Q) : sk (BNode XQ) := sk_map ex_node (sk_map (ex_spec_scale k) ex_B).
+Definition ex_input_max : BIn XQ := root_bin sz_none (mkSize MaxContent MaxContent).
+
+Notation ex_lays := (lays (BNode XQ) (BIn XQ) (ChildOut XQ) (BLayout XQ)).
+(* both runs succeed; every stored layout and the root output of the second are those of the first multiplied by k *)
+Definition ex_scaled_ok (k : Q) (t t' : sk (BNode XQ)) (i : BIn XQ) : bool :=
+  match ex_run t i, ex_run t' (bin_scale k i) with
+  | Some (o, t1), Some (o', t1') =>
+      list_eqb blay_eqb (map (blay_scale k) (ex_lays t1)) (ex_lays t1') && bout_eqb (bout_scale k o) o'
+  | _, _ => false
+  end.
+(* both runs succeed with the same stored layouts and root output (as numbers) *)
+Definition ex_same_ok (t t' : sk (BNode XQ)) (i : BIn XQ) : bool :=
+  match ex_run t i, ex_run t' i with
+  | Some (o, t1), Some (o', t1') => list_eqb blay_eqb (ex_lays t1) (ex_lays t1') && bout_eqb o o'
+  | _, _ => false
+  end.
+Definition ex_root_size (t : sk (BNode XQ)) (i : BIn XQ) (w h : Z) : bool :=
+  match ex_run t i with Some (o, _) => bsz_eqb (co_size o) (mkSize (qz w) (qz h)) | None => false end.
+Definition ex_boxes (t : sk (BNode XQ)) (i : BIn XQ) (bs : list (XQ * XQ * XQ * XQ)) : bool :=
+  match ex_run t i with Some (_, t1) => list_eqb box_eqb (boxes t1) bs | None => false end.
